@@ -1,10 +1,24 @@
 #!/bin/sh
 # Builds the whole framework offline from files on disk: the Lean development (models, lemmas,
 # property theorems, model drivers) and the Rust correspondence harness against /repo.
-set -e
+# Every check rebuilds what it needs itself; a target that fails here is reported and does not stop
+# the others (the check of the property concerned will then report it).
 cd "$(dirname "$0")"
 export CARGO_NET_OFFLINE=true
 [ -f harness/Cargo.lock ] || cp /repo/Cargo.lock harness/Cargo.lock
-(cd lean && lake build)
-(cd harness && cargo build --offline --workspace)
-echo "setup ok"
+rc=0
+for t in translators/*.py; do
+  [ -f "$t" ] && { python3 "$t" >/dev/null 2>&1 || echo "setup: translator $t failed (its check will report it)"; }
+done
+(cd lean && lake build DiscretModel) || { echo "setup: lake build DiscretModel failed"; rc=1; }
+for exe in $(sed -n 's/^name = "\(dmodel_[a-z_]*\)"/\1/p' lean/lakefile.toml); do
+  (cd lean && lake build "$exe") || { echo "setup: lake build $exe failed"; rc=1; }
+done
+(cd harness && cargo build --offline --workspace) || {
+  echo "setup: workspace build failed, building packages one by one"
+  for p in $(sed -n 's/^name = "\(dv[a-z-]*\)"/\1/p' harness/*/Cargo.toml); do
+    (cd harness && cargo build --offline -p "$p") || { echo "setup: cargo build -p $p failed"; rc=1; }
+  done
+}
+echo "setup done (rc=$rc)"
+exit 0
